@@ -36,6 +36,9 @@ func (rn *runner) feedServer() {
 				rn.viol("C02", "headers-unknown-stream", "HEADERS on a stream the client never opened: %s", e.String())
 				break
 			}
+			if w.rstIn {
+				rn.viol("C02", "frame-after-own-rst", "HEADERS on stream %d after the server itself reset it: %s", e.Stream, e.String())
+			}
 			if w.closedAt != 0 && e.Seq >= w.closedAt {
 				rn.viol("C02", "frame-after-close", "HEADERS for stream %d after it was closed and the connection quiescent: %s", e.Stream, e.String())
 			}
@@ -62,6 +65,9 @@ func (rn *runner) feedServer() {
 			}
 			if w.endStream > 0 {
 				rn.viol("C02", "data-after-trailers", "DATA after trailers on stream %d: %s", e.Stream, e.String())
+			}
+			if w.rstIn {
+				rn.viol("C02", "frame-after-own-rst", "DATA on stream %d after the server itself reset it: %s", e.Stream, e.String())
 			}
 			if w.hdrs == 0 {
 				rn.viol("C02", "data-before-headers", "DATA before response HEADERS on stream %d: %s", e.Stream, e.String())
